@@ -212,6 +212,7 @@ def cmdObs (instr : String) (dpc dsp : Int) : String :=
     | .plain => if nd.edges.contains (dpc, dsp) then "ok" else s!"mismatch edges={nd.edges}"
     | .tryI _ _ | .enterFinally => if dpc == 1 && dsp == 0 then "ok" else "mismatch kind=try/enterFinally"
     | .startVar => if dpc == 1 && dsp == 1 then "ok" else "mismatch kind=startVar"
+    | .endVar => if dpc == 1 && dsp == -1 then "ok" else "mismatch kind=endVar"
     | _ => "skip"
 
 def payload? : String → Option Payload
